@@ -26,7 +26,7 @@ ASSUMPTIONS = ['for U/u the complement table may give A or - (the statement does
 REQUIRED = {t: ['cells:IUPAC', 'cells:RC', 'cells:AMBIG', 'cells:PROB', 'laws_checked', 'orderings_through_build',
                 'codes_through_map_reverse_strand', 'codes_through_map_inverted_repeat', 'miri_dump_identical',
                 'weights_through_distance', 'dist_pairs_with_identical_ambiguous_codes', 'orderings_with_self_complementary_arms',
-                'mask_flags_through_map_128bit', 'mask_flags_through_map_64bit', 'weights_through_distance_with_min_freq', 'junction_sightings_through_build', 'orderings_over_two_files_of_a_sample', 'codes_through_align_mask'] for t in ('quick', 'thorough')}
+                'mask_flags_through_map_128bit', 'mask_flags_through_map_64bit', 'weights_through_distance_with_min_freq', 'junction_sightings_through_build', 'orderings_over_two_files_of_a_sample', 'codes_through_align_mask', 'codes_through_weed_mask', 'codes_through_count_as_missing'] for t in ('quick', 'thorough')}
 LETTERS = [c for c in M.CODES] + [c.lower() for c in M.CODES]
 
 
@@ -358,6 +358,28 @@ def run_case(desc, ctx):
                 res.count('codes_through_align_mask', sum(1 for r in rows.values() for x in r if M.is_ambig(x)))
         else:
             res.violate('C15:align-mask-failed', 'align failed: %s' % (pa0.stderr + pa1.stderr)[-160:], {'rows': rows})
+        # the same through `ska weed --ambig-mask` (no weed file, nothing else asked for): the stored codes become N, nothing is lost
+        pw_ = ctx.sh(ctx.ska, 'weed', ctx.path('d.skf'), '--ambig-mask', '--min-freq', '0', '-o', ctx.path('dw.skf'))
+        res.evals += 1
+        try:
+            _hw, Tw_ = G.nk(ctx, ctx.path('dw.skf')) if pw_.returncode == 0 else (None, None)
+        except (G.NkFailed, ValueError):
+            Tw_ = None
+        if Tw_ != {a: ['N' if M.is_ambig(x) else x for x in r] for a, r in rows.items()}:
+            res.violate('C15:weed-mask', 'k=%d ns=%d: `ska weed --ambig-mask --min-freq 0` does not store exactly the ambiguity codes as N (exit %d)' % (k, ns, pw_.returncode), {'rows': rows})
+        else:
+            res.count('codes_through_weed_mask')
+        # what counts as ambiguous when ambiguous calls are to count as missing: rows with fewer than ceil(f*n) UNAMBIGUOUS calls drop out
+        mfa = rng.choice([('%.4f' % (j / ns)).rstrip('0').rstrip('.') for j in range(1, ns + 1) if (j * 10000) % ns == 0])
+        pf_ = ctx.sh(ctx.ska, 'align', ctx.path('d.skf'), '--filter', 'no-filter', '--min-freq', mfa, '--filter-ambig-as-missing')
+        res.evals += 1
+        wantf = sorted(''.join(v) for v in M.t_filter(rows, 'no-filter', M.ceil_thr(mfa, ns), True, False, False).values())
+        gotf = sorted(M.columns(M.parse_fasta(pf_.stdout)[1])) if pf_.returncode == 0 else None
+        if gotf != wantf:
+            res.violate('C15:count-as-missing', 'k=%d ns=%d --min-freq %s --filter-ambig-as-missing: %s columns, %d expected when exactly the IUPAC letters other than A/C/G/T count as missing'
+                        % (k, ns, mfa, None if gotf is None else len(gotf), len(wantf)), {'rows': rows})
+        else:
+            res.count('codes_through_count_as_missing')
         thr = rng.choice([1, 2, 4])
         # with a frequency threshold as well: rows present (any symbol counts) in fewer than ceil(f*n) samples drop out, the codes
         # of the others keep their weights
